@@ -174,7 +174,7 @@ def window_case(draw):
 
 def tip_cases(tier="quick"):
     ffs = ["AMBER", "CHARMM", "PARSE"]
-    return [dict(part="tiptable", desc=d, ff=ffs[k % 3], opts=[], wild=False) for k, d in enumerate(e2e.tip_table(tier))]
+    return [dict(part="tiptable", desc=d["desc"], ff=ffs[k % 3], opts=d["opts"], wild=False) for k, d in enumerate(e2e.tip_table(tier))]
 
 
 def parts(tier):
